@@ -122,6 +122,8 @@ class EnumInfo:
             _, node, params = idx
             vals = v if isinstance(v, tuple) else (v,)
             return _fold_local(node, dict(zip(params, vals)))
+        if isinstance(idx, tuple):
+            raise AnalysisError(f"enum attribute {attr} is computed in a way the model does not fold ({idx[0]})")
         return v[idx]
 
 
@@ -527,6 +529,12 @@ class Program:
                     members[nm] = self.fold(ci.module, st.value)
         attrs: Dict[str, Any] = {}
         new = ci.methods.get("__new__")
+        init_idiom = False
+        if new is None and ci.methods.get("__init__") is not None and len(ci.methods["__init__"].params) > 1:
+            # the documented alternative: the enum machinery creates the member (its _value_ is the whole tuple) and
+            # calls __init__(self, *items): attributes set there are read the same way as those set in __new__
+            new = ci.methods["__init__"]
+            init_idiom = True
         if new is None:
             attrs["value"] = "whole"
             attrs["_value_"] = "whole"
@@ -541,6 +549,9 @@ class Program:
                     for t, v in zip(st.targets[0].elts, st.value.elts):
                         if isinstance(t, ast.Attribute) and isinstance(v, ast.Name) and v.id in params:
                             slot[t.attr] = params.index(v.id)
+                        elif isinstance(t, ast.Attribute) and isinstance(v, (ast.BinOp, ast.UnaryOp, ast.Constant)) and all(
+                                (not isinstance(n, ast.Name)) or n.id in params for n in ast.walk(v)) and not any(isinstance(n, (ast.Call, ast.Attribute, ast.Subscript)) for n in ast.walk(v)):
+                            computed[t.attr] = ("expr", v, tuple(params))
                     continue
                 if isinstance(st, ast.Assign) and all(isinstance(t, ast.Attribute) for t in st.targets):
                     if isinstance(st.value, ast.Name) and st.value.id in params:
@@ -559,6 +570,8 @@ class Program:
             else:
                 # Enum machinery: without _value_ the value is the whole tuple
                 attrs["value"] = "whole"
+            if init_idiom and "_value_" not in slot:
+                attrs["_value_"] = "whole"
         for pname, pf in ci.properties.items():
             body = [s for s in pf.node.body if not (isinstance(s, ast.Expr) and isinstance(s.value, ast.Constant))]
             if (
